@@ -329,7 +329,7 @@ impl Check for C01
 	}
 	fn rule(&self) -> String
 	{
-		"well-typed, terminating, UB-free programs built top-down from a typed AST (all 13 primitive types, arrays incl. 2-D and named-constant lengths, structs, words, pointers incl. pointer-to-pointer and pointer-to-array, view / slice-pointer / pointer parameters, structure literals with their members in any order, constants, nested blocks, if/else-if, forward gotos out of nested blocks, counted loop blocks), each printed in a plain and a randomised layout (indentation, CRLF, comments, redundant parentheses, trailing commas, tight operators). Oracle: full stdout and exit status of lli on the emitted IR must equal the reference interpreter's, for both layouts. Programs whose interpretation hits UB or the step limit are discarded and counted. Non-trivial: >= 3 print statements executed, >= 6 distinct (operator, type) pairs evaluated, and at least one goto taken or loop back-edge; distinct by plain source text.".into()
+		"well-typed, terminating, UB-free programs built top-down from a typed AST (all 13 primitive types, arrays incl. 2-D and named-constant lengths, structs, words, pointers incl. pointer-to-pointer and pointer-to-array, view / slice-pointer / pointer parameters, structure literals with their members in any order, constants, nested blocks, if/else-if, forward gotos out of nested blocks, counted loop blocks, chains of 1-6 declarations without annotation whose integer type is inferred backwards from a later typed use (1-2 inside nested blocks, where longer chains are observed to need an annotation, E581)), each printed in a plain and a randomised layout (indentation, CRLF, comments, redundant parentheses, trailing commas, tight operators). Oracle: full stdout and exit status of lli on the emitted IR must equal the reference interpreter's, for both layouts. Programs whose interpretation hits UB or the step limit are discarded and counted. Non-trivial: >= 3 print statements executed, >= 6 distinct (operator, type) pairs evaluated, and at least one goto taken or loop back-edge; distinct by plain source text.".into()
 	}
 	fn assumptions(&self) -> Vec<String>
 	{
